@@ -557,8 +557,13 @@ def process(c, tier, seed, res, agg):
             small = shrink_divergence(c.lines)
             p = common.write_case(PROP, c.name, small, tier, seed, ext="scn")
             out, err, rc = run_impl(small)
-            d2 = run_model(out)[0] or c.div or ["replayer failed: " + c.model_err]
-            res.divergences.append((f"model Ivy.L3.Wait does not predict iv_wait.c: {d2[0][:400]}", p))
+            v3 = oracle(out, rc, err)
+            if v3 is not None and not v3[0].startswith(("harness", "skip")):
+                # the minimised diverging scenario is valid use and the oracle rejects the implementation on it: a concrete failing input
+                res.impl_violations.append((v3[0], f"implementation violates C11: {v3[1]}", p))
+            else:
+                d2 = run_model(out)[0] or c.div or ["replayer failed: " + c.model_err]
+                res.divergences.append((f"model Ivy.L3.Wait does not predict iv_wait.c: {d2[0][:400]}", p))
         agg["ndiv"] += 1
 
 
